@@ -203,6 +203,17 @@ func installHooks() {
 		if muxReg.pinP > 0 {
 			m.maxp = muxReg.pinP
 		}
+		if richIdent.Load() {
+			// pool lockers are numbered in creation order, and a cluster client creates its multiplexers in Go map
+			// order: name them after the multiplexer instead (the scenario also sets Sim.SortLockers)
+			k := len(muxReg.byDst[m.dst]) - 1
+			if l, ok := m.dpool.cond.L.(*sched.Locker); ok {
+				l.Name = fmt.Sprintf("pool:%s/%d:d", m.dst, k)
+			}
+			if l, ok := m.spool.cond.L.(*sched.Locker); ok {
+				l.Name = fmt.Sprintf("pool:%s/%d:s", m.dst, k)
+			}
+		}
 		muxReg.mu.Unlock()
 	}
 	VerifHooks.Yield = func(ctx context.Context, site string, obj any, cmd []string) {
